@@ -163,6 +163,7 @@ func main() {
 	flag.IntVar(&repeat, "repeat", 3, "number of times every rendering is repeated")
 	binds := flag.Float64("binds", 0, "if > 0, boost Bind / Arg producers (share of expression leaves)")
 	boost := flag.String("boost", "", "comma separated producer=factor weight multipliers")
+	mode := flag.String("mode", "mixed", "generator: typed, structured or mixed")
 	flag.Parse()
 
 	w := os.Stdout
@@ -199,17 +200,37 @@ func main() {
 	}
 	sort.Slice(targets, func(i, j int) bool { return targets[i].String() < targets[j].String() })
 
+	sg := &gen.S{G: g}
 	for id := 0; id < *n; {
-		t := targets[g.Rng.Intn(len(targets))]
+		var sw builder.SQLWriter
+		var c Case
 		dep := 1 + g.Rng.Intn(*depth)
-		val, ok := g.Gen(t, dep, "")
-		if !ok {
-			g.Stats["gen-failed"]++
-			continue
+		if *mode == "structured" || (*mode == "mixed" && id%2 == 1) {
+			w, prog, kind := func() (w builder.SQLWriter, prog, kind string) {
+				defer func() {
+					if r := recover(); r != nil {
+						g.Stats["derive-panic:structured"]++
+						w = nil
+					}
+				}()
+				return sg.Statement(dep)
+			}()
+			if w == nil {
+				continue
+			}
+			sw = w
+			c = Case{ID: id, Gen: "structured", Type: "structured." + kind, Prog: prog}
+		} else {
+			t := targets[g.Rng.Intn(len(targets))]
+			val, ok := g.Gen(t, dep, "")
+			if !ok {
+				g.Stats["gen-failed"]++
+				continue
+			}
+			sw = val.V.Interface().(builder.SQLWriter)
+			c = Case{ID: id, Gen: "typed", Type: t.String(), Prog: val.Prog}
 		}
-		sw := val.V.Interface().(builder.SQLWriter)
-		c := Case{ID: id, Gen: "typed", Type: t.String(), Prog: val.Prog}
-		c.Dump = d.Value(val.V.Interface())
+		c.Dump = d.Value(sw)
 		c.Binds = bindsOf(c.Dump)
 		full := map[string]int{}
 		for _, b := range c.Binds {
